@@ -254,6 +254,11 @@ def main():
             c["text"] += (" In addition the bodies of the numeric kernels concerned are re-translated from /repo's source into Lean "
                           "definitions on every run and proved equal to the model the theorems are about (for every scalar type), so the "
                           "theorems are re-checked against what the source says now.")
+            if p in ("C01", "C02", "C04", "C05", "C18"):
+                c["text"] += (" This includes the whole solvers: the complete translated bodies of fteik2d and fteik3d (domain check, "
+                              "source classification, all initialisation loops, the sweep iteration, the gradient assembly) are "
+                              "proved equal to the model's fteik2d/fteik3d (gen_fteik2d_eq, gen_fteik3d_eq; over the reals with no "
+                              "scalar hypotheses).")
         elif p in TIEC_SOLVER:
             c["technique"] += " + theorems proved directly about the whole fteik2d/fteik3d bodies re-translated from the source into Lean on every run"
             c["text"] += (" In addition the complete bodies of fteik2d and fteik3d (domain check, source classification, initialisation "
